@@ -1,15 +1,67 @@
 /-
-  C07 — CborLen is exact.  Property theorems only.
-  (placeholder: a concrete evaluation; the general theorems are being added)
+  C07 — CborLen is exact: built-in impls and `Token`.  Property theorems only.
+  (The derived-impl part of C07 lives with the derive model.)
+
+  `lenT` (Types.lean) mirrors the hand-written `CborLen` impls, `Token.len` the one of `Token`
+  (after the repair of the two token defects, see known_findings.json); `encodeT` / `Token.enc`
+  mirror the `Encode` impls.
+
+  Side condition `t.SmallArity` (decidable): tuples and `decode_fields!` records have at most 23
+  components and `[index, payload]` enums at most 24 variants.  The `CborLen` impls of tuples
+  (arity ≤ 16 in Rust), ranges, socket addresses, `Result`, `Bound`, `IpAddr`, `SocketAddr`,
+  `Duration`, `SystemTime` hard-code `1` for the array head and the variant index; every Rust
+  type satisfies the condition, the descriptor language alone does not (`arity_needed`).
+  No size hypothesis is needed: `type_len` and the width table agree on every argument.
 -/
-import Minicbor.Types
-import Minicbor.Token
+import Minicbor.Lemmas.TypesLen
+import Minicbor.Lemmas.TypesRoundtrip
 
 namespace Minicbor.C07
 
-theorem len_example :
-    (encodeT (.map .str (.seq (.int .u16))) (.map [.str [0x61], .list [.int 1, .int 300]])).map List.length
-      = some (lenT (.map .str (.seq (.int .u16))) (.map [.str [0x61], .list [.int 1, .int 300]])) := by
+/-- **C07, built-in impls.**  Whenever encoding succeeds, the computed length is the number of
+    bytes written. -/
+theorem len_exact_builtin (t : Ty) (v : Val) (bs : Bytes) (har : t.SmallArity = true)
+    (henc : encodeT t v = some bs) : lenT t v = bs.length :=
+  len_all.1 t v bs henc har
+
+/-- the element loops (for use by the derived-impl part). -/
+theorem len_exact_list (t : Ty) (vs : List Val) (bs : Bytes) (har : t.SmallArity = true)
+    (henc : encodeList t vs = some bs) : lenList t vs = bs.length :=
+  len_all.2.2.2 t vs bs henc har
+
+/-- **C07, tokens.**  For every `Token` (no restriction on the payload) the computed length is the
+    number of bytes `Token::encode` writes. -/
+theorem len_exact_token (tk : Token) : tk.len = tk.enc.length := Token.len_enc tk
+
+theorem len_exact_tokens (tks : List Token) :
+    (tks.map Token.len).sum = (encodeTokens tks).length := by
+  induction tks with
+  | nil => rfl
+  | cons t ts ih => simp [encodeTokens, ih, len_exact_token]
+
+/-- **exact buffer.**  A buffer suffices for the encoding iff it has at least `len(v)` bytes: one
+    of exactly that size does, one a byte smaller does not (a slice sink accepts a write sequence
+    iff the total fits its capacity — C13). -/
+theorem exact_buffer (t : Ty) (v : Val) (bs : Bytes) (har : t.SmallArity = true)
+    (henc : encodeT t v = some bs) :
+    (∀ cap, bs.length ≤ cap ↔ lenT t v ≤ cap) ∧ bs.length ≤ lenT t v ∧ ¬ bs.length ≤ lenT t v - 1 := by
+  have h := len_exact_builtin t v bs har henc
+  have hp := enc_sizes.1 t v bs henc
+  refine ⟨fun cap => by rw [h], by omega, by omega⟩
+
+/-- the arity condition is needed for the descriptor language (not for Rust, which has no
+    24-tuples): a 24-component tuple gets a two-byte array head but is sized with one. -/
+theorem arity_needed :
+    let t : Ty := .tup (List.replicate 24 .unit)
+    let v : Val := .list (List.replicate 24 .unit)
+    (encodeT t v).map List.length = some 26 ∧ lenT t v = 25 ∧ t.SmallArity = false := by
+  decide
+
+/-- non-vacuity: a nested value at several width boundaries. -/
+example :
+    let t : Ty := .map .str (.seq (.opt (.tup [.int .u16, .tagged 70000 .bytes, .enum [.unit, .f64]])))
+    let v : Val := .map [.str [0x61], .list [.some (.list [.int 300, .tagged (.bytes [1, 2]), .variant 1 (.float 0)]), .none]]
+    t.SmallArity = true ∧ (encodeT t v).map List.length = some (lenT t v) := by
   decide
 
 end Minicbor.C07
